@@ -46,15 +46,15 @@ inductive Key where
   | name (s : Text)
   deriving DecidableEq, Repr, Inhabited
 
-/-- decoded JSON value.  `fzero neg` is the float `0.0` / `-0.0`; `float r` is any other float, carried by the
-    text `json.dumps` prints for it (`1.5`, `1e+100`, `NaN`, `Infinity`); objects are association lists in
-    the order `json.dumps(sort_keys=True)` prints them. -/
+/-- decoded JSON value.  `fzero neg` is the float `0.0` / `-0.0`; `float c r` is any other float, carried by the
+    (non-empty) text `c :: r` that `json.dumps` prints for it (`1.5`, `1e+100`, `NaN`, `Infinity`); objects are
+    association lists in the order `json.dumps(sort_keys=True)` prints them. -/
 inductive Json where
   | null
   | bool (b : Bool)
   | int (i : Int)
   | fzero (neg : Bool)
-  | float (repr : Text)
+  | float (c : Char) (r : Text)
   | str (s : Text)
   | arr (xs : List Json)
   | obj (kvs : List (Text × Json))
@@ -196,42 +196,48 @@ def Key.isNeg : Key → Bool
     so a key containing one of them never matches; `"` also ends the quoted label in the path -/
 def json1SafeChar (c : Char) : Bool := c != '"' && c != '\\' && c.toNat ≥ 32
 
-def json1Step : Json → Key → Json
-  | .arr xs, .idx i => if i < 0 then .null else (xs[i.toNat]?).getD .null
-  | .obj kvs, .name s => if s.all json1SafeChar then (kvs.lookup s).getD .null else .null
-  | _, _ => .null
-
-def json1Keys : Json → List Key → Json
-  | v, [] => v
-  | v, k :: ks => json1Keys (json1Step v k) ks
-
 inductive SqlErr where
   | pathError        -- OperationalError: JSON path error near '[-1]'
-  | udfTypeError     -- user-defined function raised exception (uncaught TypeError in `_traverse`)
   deriving DecidableEq, Repr, Inhabited
 
-/-- `json_extract(doc, path)` for a path text emitted by `evalJsonPath`: a negative index is a path error -/
-def json1Extract (v : Json) (keys : List Key) : Except SqlErr Json :=
-  if keys.any Key.isNeg then .error .pathError else .ok (json1Keys v keys)
+/-- `json_extract(doc, path)` for a path text emitted by `evalJsonPath` (jsonLookupStep of SQLite 3.40): the path is read
+    lazily, step by step; a step that finds nothing ends the lookup with NULL; `[-i]` is a path error when the step is
+    reached (whatever the node is); a label containing an escaped character never matches. -/
+def json1Extract : Json → List Key → Except SqlErr Json
+  | v, [] => .ok v
+  | v, .idx i :: ks =>
+      if i < 0 then .error .pathError else
+      match v with
+      | .arr xs => (match xs[i.toNat]? with | some w => json1Extract w ks | none => .ok .null)
+      | _ => .ok .null
+  | v, .name s :: ks =>
+      match v with
+      | .obj kvs =>
+          if s.all json1SafeChar then (match kvs.lookup s with | some w => json1Extract w ks | none => .ok .null)
+          else .ok .null
+      | _ => .ok .null
 
 /-! ### `json.dumps` -/
 
 def hexDigit (n : Nat) : Char :=
   if n < 10 then digitChar n else Char.ofNat (87 + n)
 
+/-- one character of a string as `json.dumps(s, ensure_ascii=False)` writes it -/
+def escChar (c : Char) : Text :=
+  if c = '"' then ['\\', '"']
+  else if c = '\\' then ['\\', '\\']
+  else if c = '\n' then ['\\', 'n']
+  else if c = '\r' then ['\\', 'r']
+  else if c = '\t' then ['\\', 't']
+  else if c.toNat = 8 then ['\\', 'b']
+  else if c.toNat = 12 then ['\\', 'f']
+  else if c.toNat < 32 then ['\\', 'u', '0', '0', hexDigit (c.toNat / 16), hexDigit (c.toNat % 16)]
+  else [c]
+
 /-- `json.dumps(s, ensure_ascii=False)` body of a string -/
 def escStr : Text → Text
   | [] => []
-  | c :: cs =>
-      (if c = '"' then ['\\', '"']
-       else if c = '\\' then ['\\', '\\']
-       else if c = '\n' then ['\\', 'n']
-       else if c = '\r' then ['\\', 'r']
-       else if c = '\t' then ['\\', 't']
-       else if c.toNat = 8 then ['\\', 'b']
-       else if c.toNat = 12 then ['\\', 'f']
-       else if c.toNat < 32 then ['\\', 'u', '0', '0', hexDigit (c.toNat / 16), hexDigit (c.toNat % 16)]
-       else [c]) ++ escStr cs
+  | c :: cs => escChar c ++ escStr cs
 
 def quoteStr (s : Text) : Text := '"' :: (escStr s ++ ['"'])
 
@@ -243,7 +249,7 @@ mutual
     | .int i => intText i
     | .fzero false => "0.0".toList
     | .fzero true => "-0.0".toList
-    | .float r => r
+    | .float c r => c :: r
     | .str s => quoteStr s
     | .arr xs => '[' :: (dumpsList xs ++ [']'])
     | .obj kvs => '{' :: (dumpsKvs kvs ++ ['}'])
@@ -303,7 +309,7 @@ def pyTruthy : Json → Bool
   | .bool b => b
   | .int i => i != 0
   | .fzero _ => false
-  | .float _ => true
+  | .float _ _ => true
   | .str s => !s.isEmpty
   | .arr xs => !xs.isEmpty
   | .obj kvs => !kvs.isEmpty
@@ -318,7 +324,7 @@ def floatTextOk (r : Text) : Bool :=
 
 /-- well-formedness of the value tested (only its top node matters for truthiness) -/
 def Json.topOk : Json → Bool
-  | .float r => floatTextOk r
+  | .float c r => floatTextOk (c :: r)
   | _ => true
 
 def isStrItem (k : Text) : Json → Bool
